@@ -1084,7 +1084,9 @@ func specValidConf(conf Conf) bool {
 	return implies(conf.EnableP4rt, specCIDROK(conf.P4rtcIface.AccessIP) && specCIDROK(conf.CPIface.UEIPPool) && conf.Mode == "") &&
 		implies(!conf.EnableP4rt, specModeOK(conf.Mode)) &&
 		implies(conf.CPIface.EnableUeIPAlloc, specCIDROK(conf.CPIface.UEIPPool)) &&
-		forall(func(a int) bool { return implies(lo(conf.CPIface.Peers) <= a && a < hi(conf.CPIface.Peers), specParsesIP(at(conf.CPIface.Peers, a))) }) &&
+		forall(func(a int) bool {
+			return implies(lo(conf.CPIface.Peers) <= a && a < hi(conf.CPIface.Peers), specParsesIP(at(conf.CPIface.Peers, a)))
+		}) &&
 		specParsesDuration(conf.RespTimeout) && conf.ReadTimeout != 0 && conf.MaxReqRetries != 0 &&
 		implies(conf.EnableHBTimer, specParsesDuration(conf.HeartBeatInterval))
 }
@@ -2101,9 +2103,15 @@ func specQFIsValid(qers []qer) bool {
 // specAllWritesOK: every P4Runtime write logged since the given log positions succeeded (table
 // writes: or failed only with OK / ALREADY_EXISTS statuses).
 func specAllWritesOK(t0, m0, b0 int) bool {
-	return forall(func(k int) bool { return implies(t0 <= k && k < glen("p4table"), specWriteTolerated(gentry("p4table", k))) }) &&
-		forall(func(k int) bool { return implies(m0 <= k && k < glen("p4meter"), gfield("p4meter.ok", gentry("p4meter", k)) == 1) }) &&
-		forall(func(k int) bool { return implies(b0 <= k && k < glen("p4batch"), gfield("p4batch.ok", gentry("p4batch", k)) == 1) })
+	return forall(func(k int) bool {
+		return implies(t0 <= k && k < glen("p4table"), specWriteTolerated(gentry("p4table", k)))
+	}) &&
+		forall(func(k int) bool {
+			return implies(m0 <= k && k < glen("p4meter"), gfield("p4meter.ok", gentry("p4meter", k)) == 1)
+		}) &&
+		forall(func(k int) bool {
+			return implies(b0 <= k && k < glen("p4batch"), gfield("p4batch.ok", gentry("p4batch", k)) == 1)
+		})
 }
 
 //@ func (up4 *UP4) sendCreate(all PacketForwardingRules, updated PacketForwardingRules) (err error)
@@ -2655,7 +2663,9 @@ func storeInv(pConn *PFCPConn) bool {
 // specFirstAllocPdr: the first PDR that carries an address allocated by the UPF.
 func specFirstAllocPdr(s *PFCPSession, j int) bool {
 	return lo(s.pdrs) <= j && j < hi(s.pdrs) && at(s.pdrs, j).allocIPFlag && at(s.pdrs, j).srcIface == core &&
-		forall(func(i int) bool { return implies(lo(s.pdrs) <= i && i < j, !(at(s.pdrs, i).allocIPFlag && at(s.pdrs, i).srcIface == core)) })
+		forall(func(i int) bool {
+			return implies(lo(s.pdrs) <= i && i < j, !(at(s.pdrs, i).allocIPFlag && at(s.pdrs, i).srcIface == core))
+		})
 }
 
 func specNoAllocPdr(s *PFCPSession) bool {
@@ -2730,7 +2740,9 @@ func sessionEnv(pConn *PFCPConn) bool {
 //@   ensures forall a int, b int :: lo(r) <= a && a < b && b < hi(r) ==> at(r, a).localSEID != at(r, b).localSEID
 
 func specHasAllocPdr(s PFCPSession) bool {
-	return exists(func(i int) bool { return lo(s.pdrs) <= i && i < hi(s.pdrs) && at(s.pdrs, i).allocIPFlag && at(s.pdrs, i).srcIface == core })
+	return exists(func(i int) bool {
+		return lo(s.pdrs) <= i && i < hi(s.pdrs) && at(s.pdrs, i).allocIPFlag && at(s.pdrs, i).srcIface == core
+	})
 }
 
 func specPoolReady(pConn *PFCPConn) bool {
@@ -2794,8 +2806,8 @@ func specEstReqWF(msg message.Message) bool {
 		implies(specEstReq(msg).NodeID != nil, specEstReq(msg).NodeID.Type == ie.NodeID) &&
 			implies(specEstReq(msg).CPFSEID != nil, specEstReq(msg).CPFSEID.Type == ie.FSEID) &&
 			forall(func(a int) bool {
-			return implies(lo(specEstReq(msg).CreatePDR) <= a && a < hi(specEstReq(msg).CreatePDR), at(specEstReq(msg).CreatePDR, a) != nil)
-		}) && forall(func(a int) bool {
+				return implies(lo(specEstReq(msg).CreatePDR) <= a && a < hi(specEstReq(msg).CreatePDR), at(specEstReq(msg).CreatePDR, a) != nil)
+			}) && forall(func(a int) bool {
 			return implies(lo(specEstReq(msg).CreateFAR) <= a && a < hi(specEstReq(msg).CreateFAR), at(specEstReq(msg).CreateFAR, a) != nil)
 		}) && forall(func(a int) bool {
 			return implies(lo(specEstReq(msg).CreateQER) <= a && a < hi(specEstReq(msg).CreateQER), at(specEstReq(msg).CreateQER, a) != nil)
